@@ -21,6 +21,7 @@ RULE = (
     "before headings and paragraphs, extra non-document files; in every document links to the other documents in the spellings "
     "{t.md, ./t.md, ../x/t.md, /abs/t.md, no extension, <project:...>, [..](project:..), t.md#slug, #label, <path:...>, path to "
     "a non-document file, missing document, missing slug, missing label} x {explicit text with nested markup, empty text}; "
+    "page links after relative-docs includes; one latex build per shard (every \\hyperref names a \\label, links to a label of the root document); "
     "distinct by hash of the project; non-trivial = the project has documents in >= 2 directories"
 )
 ASSUME = [
